@@ -12,7 +12,8 @@ PROP = {'streams': [('c14', 2500, 120000)],
          'erased and at least one residual-class policy; distinct by policies + partial request + partial store',
  'theorems': ['tpe_table_sound', 'views_agree', 'policy_set_presents_originals', 'views_agree_full_fails', 'interpret_sound',
               'interpret_sound_outcomes', 'interpret_keeps_typeSafe', 'can_error_analysis_sound', 'tpe_decision_sound',
-              'interpret_sound_partial', 'opBool_all_unsatisfiable', 'query_exact', 'query_action_sound'],
+              'interpret_sound_partial', 'opBool_all_unsatisfiable', 'query_exact', 'query_action_sound', 'query_resource_exact',
+              'query_principal_exact'],
  'assumptions': ['the typed condition TPE starts from (output of the Rust typechecker for the request environment) is an input of the model '
                  '(trusted base: the typechecker, tied by C03); the harness recomputes it with Typechecker::typecheck_by_single_request_env',
                  'error classes are not compared between residual evaluation and concrete evaluation (the property says "erroring")',
